@@ -59,6 +59,12 @@ type caseT struct {
 	Calls []callT `json:",omitempty"`
 	// C: the last NConc calls are simultaneous
 	NConc int `json:",omitempty"`
+	// Flood: before the trace, that many Allow calls on distinct OTHER keys are made on the same store. They
+	// are not part of the case line: by the property (and keys_independent) they cannot matter.
+	Flood int `json:",omitempty"`
+	// ViaNew: options left out of the New(...) call — the documented defaults (100 requests/s, burst 20, key
+	// "ip:"+ClientIP) must then apply, whatever other limiters the process has built before
+	OmitRate, OmitBurst, OmitKey bool `json:",omitempty"`
 	// EpochAgoSec: tick 0 of this case lies that many seconds before the moment the case is run
 	// (default 0: a fixed instant in 2020). The cleanup cases need scripted times near the wall clock,
 	// because the store's cleanup compares entries with time.Now().
@@ -169,7 +175,9 @@ func newTraceGen(r *hx.Rand) *traceGen {
 	g.rate = hx.Pick(r, []int{1, 1, 2, 3, 4, 5, 8, 10, 64, 100, 512, 1000})
 	g.burst = hx.Pick(r, []int{1, 1, 2, 3, 5, 8, 20})
 	nk := hx.Pick(r, []int{1, 1, 2, 3})
-	g.keys = []string{"ip:10.0.0.1", "ip:10.0.0.2", "user:é", ""}[:nk]
+	pool := []string{"ip:10.0.0.1", "ip:10.0.0.2", "user:é", "", "ip:10.0.0.1 "}
+	hx.Shuffle(r, pool)
+	g.keys = pool[:nk]
 	if r.Chance(1, 4) {
 		// long keys (65–200 bytes) that share a long prefix (bearer tokens of one issuer, URLs, …)
 		pre := make([]byte, r.Range(64, 150))
@@ -239,6 +247,9 @@ func (k *caseT) runStore(id string, st *hx.Stats, gen *traceGen, n int) string {
 	panicked := guard(func() {
 		store := ratelimit.NewInMemoryTokenBucketStore(k.Rate, k.Burst)
 		created := time.Now()
+		for i := 0; i < k.Flood; i++ {
+			store.Allow("flood-"+strconv.Itoa(i), k.at(0))
+		}
 		serial := len(k.Calls) - k.NConc
 		if gen != nil {
 			serial = n
@@ -306,6 +317,9 @@ func (k *caseT) runStore(id string, st *hx.Stats, gen *traceGen, n int) string {
 		}
 	}
 	stats(st, k.Kind, k.Rate, k.Burst, k.Calls, outs, in[len(id):], k.NConc > 0)
+	if st != nil && k.Flood > 0 {
+		st.Count("store_flooded_with_70000_other_keys")
+	}
 	if st != nil && k.NConc > 0 {
 		adm := 0
 		for _, o := range outs[len(outs)-k.NConc:] {
@@ -409,8 +423,16 @@ func (k *caseT) runMw(id string, st *hx.Stats, gen *traceGen, n int) string {
 		if k.ViaNew {
 			// the packaged constructor: wall clock, own store. All calls use one timestamp in the model;
 			// the run is kept only if it was fast enough for the refill to stay below one token.
-			nopts := []ratelimit.Option{ratelimit.WithRequestsPerSecond(k.Rate), ratelimit.WithBurst(k.Burst),
-				ratelimit.WithKeyFunc(func(c *router.Context) string { return c.Request.Header.Get("X-Key") })}
+			var nopts []ratelimit.Option
+			if !k.OmitRate {
+				nopts = append(nopts, ratelimit.WithRequestsPerSecond(k.Rate))
+			}
+			if !k.OmitBurst {
+				nopts = append(nopts, ratelimit.WithBurst(k.Burst))
+			}
+			if !k.OmitKey {
+				nopts = append(nopts, ratelimit.WithKeyFunc(func(c *router.Context) string { return c.Request.Header.Get("X-Key") }))
+			}
 			if k.CleanupMs > 0 {
 				nopts = append(nopts, ratelimit.WithCleanupInterval(time.Duration(k.CleanupMs)*time.Millisecond),
 					ratelimit.WithLimiterTTL(time.Duration(k.TTLMs)*time.Millisecond))
@@ -418,6 +440,9 @@ func (k *caseT) runMw(id string, st *hx.Stats, gen *traceGen, n int) string {
 			r.Use(ratelimit.New(nopts...))
 		} else {
 			cs = &clockStore{inner: ratelimit.NewInMemoryTokenBucketStore(k.Rate, k.Burst)}
+			for i := 0; i < k.Flood; i++ {
+				cs.inner.Allow("flood-"+strconv.Itoa(i), at(0))
+			}
 			r.Use(ratelimit.WithTokenBucket(ratelimit.TokenBucket{Rate: k.Rate, Burst: k.Burst, Store: cs},
 				commonOpts(k.Headers, k.Enforce, k.Callback)))
 		}
@@ -485,7 +510,16 @@ func (k *caseT) runMw(id string, st *hx.Stats, gen *traceGen, n int) string {
 		}
 	}
 	l := hx.NewLine(id).Tok("M").Nat(k.Rate).Nat(k.Burst).Bool(k.Headers).Bool(k.Enforce).Bool(k.Callback)
-	callsTokens(l, k.Calls)
+	if k.ViaNew && k.OmitKey {
+		// the default key: "ip:" + ClientIP() — httptest requests all come from 192.0.2.1
+		eff := make([]callT, len(k.Calls))
+		for i, c := range k.Calls {
+			eff[i] = callT{Key: "ip:192.0.2.1", Now: c.Now}
+		}
+		callsTokens(l, eff)
+	} else {
+		callsTokens(l, k.Calls)
+	}
 	in := l.String()
 	l.Sep()
 	var outs []outT
@@ -502,6 +536,12 @@ func (k *caseT) runMw(id string, st *hx.Stats, gen *traceGen, n int) string {
 	stats(st, "M", k.Rate, k.Burst, k.Calls, outs, in[len(id):], false)
 	if st != nil && k.ViaNew {
 		st.Count("M.via_New_wall_clock")
+		if k.OmitRate || k.OmitBurst || k.OmitKey {
+			st.Count("M.via_New_with_options_left_at_their_defaults")
+		}
+	}
+	if st != nil && k.Flood > 0 {
+		st.Count("store_flooded_with_70000_other_keys")
 	}
 	return l.String() + hx.Comment(k)
 }
@@ -866,7 +906,9 @@ func (w *winCase) shape() string {
 
 func genWin(r *hx.Rand, rolling bool) *winCase {
 	w := &winCase{Limit: r.Range(1, 4), Headers: !r.Chance(1, 6), Enforce: !r.Chance(1, 8), Callback: r.Chance(1, 10)}
-	keys := []string{"a", "b"}[:r.Range(1, 2)]
+	kp := []string{"a", "b", "", "a "}
+	hx.Shuffle(r, kp)
+	keys := kp[:r.Range(1, 2)]
 	if !rolling {
 		// window lengths that do and do not divide 24 h (time.Truncate counts from Go's zero time)
 		w.W = hx.Pick(r, []int{3600, 3600, 420, 604800, 7, 11, 35 * 60})
@@ -1218,6 +1260,9 @@ func main() {
 			case 0, 1, 2, 3:
 				g := newTraceGen(r)
 				k := &caseT{Kind: "S", Rate: g.rate, Burst: g.burst}
+				if r.Chance(1, 150) {
+					k.Flood = 70000 // a very large key table must not change anything for the keys of the trace
+				}
 				s = k.runStore(id, st, g, r.Range(1, 40))
 			case 4:
 				g := newTraceGen(r)
@@ -1226,10 +1271,24 @@ func main() {
 			case 5, 6:
 				g := newTraceGen(r)
 				k := &caseT{Kind: "M", Rate: g.rate, Burst: g.burst, Headers: !r.Chance(1, 6), Enforce: !r.Chance(1, 6), Callback: r.Chance(1, 8)}
-				if r.Chance(1, 10) {
+				if r.Chance(1, 8) {
 					k.ViaNew, k.Headers, k.Enforce, k.Callback = true, true, true, false
+					// leave options out: the documented defaults apply (rate 100/s, burst 20, key by client IP)
+					if r.Chance(1, 3) {
+						k.OmitRate, k.Rate = true, 100
+					}
+					if r.Chance(1, 3) {
+						k.OmitBurst, k.Burst = true, 20
+					}
+					k.OmitKey = r.Chance(1, 4)
+				} else if r.Chance(1, 60) {
+					k.Flood = 70000
 				}
-				s = k.runMw(id, st, g, r.Range(1, 25))
+				nreq := r.Range(1, 25)
+				if k.ViaNew && k.OmitBurst {
+					nreq = r.Range(18, 26)
+				}
+				s = k.runMw(id, st, g, nreq)
 			default:
 				s = emitCase(id, &caseT{Kind: "W", Win: genWin(r, false)}, st)
 			}
